@@ -29,6 +29,8 @@ VARIANTS = {
     "msan-basic": ("clang", "clang++",
                    "-O1 -g -DNDEBUG -fsanitize=memory -fsanitize-memory-track-origins -fno-omit-frame-pointer",
                    "", ["bbcbasic_to_text"]),
+    # development aid (tools/coverage.sh): gcov line coverage of what the generators reach
+    "cov": ("gcc", "g++", "-O0 -g --coverage", "", ["dfs", "bbcbasic_to_text"]),
     "fuzz": ("clang", "clang++",
              "-O1 -g -fsanitize=fuzzer-no-link,address,undefined -fno-sanitize-recover=undefined -fno-omit-frame-pointer",
              "", ["dfslib", "dfsbase", "decoder", "dfs"]),
